@@ -285,6 +285,8 @@ class Checker:
 
     # ------------------------------------------------------------------ evidence
     def write_evidence(self, real, canary_report, vac, violations, known, error=None):
+        if getattr(self, 'no_evidence', False):
+            return
         os.makedirs(os.path.join(VERIF, 'evidence'), exist_ok=True)
         n = len(real)
         done = sum(1 for it in real if it[2].result['status'] == 'unsat')
@@ -375,6 +377,7 @@ def main(argv=None):
     except ValueError:
         seed = 0
     ck = Checker(pos[0], opts['--tier'], opts['--repo'], seed)
+    ck.no_evidence = '--no-evidence' in opts      # mutation runs on scratch copies must not touch evidence/
     rc = ck.run()
     n = len([it for it in getattr(ck, 'items', []) if it[2].kind != 'canary'])
     print(f'{pos[0]}: exit {rc}; {n} obligations; {time.time() - ck.t0:.1f}s')
